@@ -1,4 +1,4 @@
-import IncrVerif.Proofs.Life6
+import IncrVerif.Proofs.Life10
 import IncrVerif.Props.C10
 /-!
 # C10 / C07 / C09 over whole histories — the observer lifecycle for ALL programs
@@ -38,6 +38,32 @@ every state unless a hypothesis says otherwise.  A run is `(m).run.run s : Excep
   created ↦ in use (or disallowed), in use ↦ in use (or disallowed), disallowed ↦ unlinked,
   unlinked ↦ unlinked; `disallowedObservers` = the disallowed observers.
   Per phase, every outcome: `addNewObservers_spec`, `unlinkDisallowedObservers_spec`.
+
+* **O4 handlers.**  `handlers_only_when_in_use`: `run_all` (the only place of the model that logs
+  `Event.notif` and runs `env.handler`) EQUALS `runAllChecked`, the same loop with the ghost assertion
+  "observer `o` is in use and the handler's token is still registered on `o`" directly in front of
+  `logEv (.notif …)`: the assertion can never fire, for no state, environment or effect.  With O1: once
+  an observer is disallowed or its last handle dropped, it is never in use again, so no handler of it
+  ever runs again; with `Props.C10.unsubscribe_ok` (the handler is removed from the list): an
+  unsubscribed handler is not run.  `registrations_stable`: nothing that runs inside a stabilisation
+  after the observer phases changes the registrations of an observer that is still in use.
+* **O5 C07 for whole histories.**  `reads_between_stabilisations`: along any list of API actions other
+  than `stabilise`, `drop_all`, `add_dependency`, whatever their outcomes, an observer whose lifecycle
+  state is the same at the end as at the start reads the same result; `MapRefsBackward` and
+  `ObsNodesInRange` are needed of the initial state only.
+
+* **C09, observer side, for whole histories.**  `Dead s tok`: token `tok` has been issued and is not
+  registered on any observer that is created or in use.  `dead_stays_dead_and_silent`: along every
+  history from a state where `tok` is dead, `tok` stays dead and NO `Event.notif tok _` is ever logged
+  again (`step_logs_no_dead_notification`: per action, in the harness's form).  What makes a token
+  dead: `disallow_kills`, `last_drop_kills`, `unsubscribe_kills` (under `TokWF`: registered tokens are
+  `< nextToken` and registered on one observer only — true initially and kept by every action, every
+  outcome: `tokWF_init`, `tokWF_history`).  Combined: `no_callback_after_disallow`,
+  `no_callback_after_unsubscribe`.  Tokens are fresh: `subscribe` issues `nextToken` (part of `TokWF`).
+
+## NOT PROVED
+* O5 excludes `add_dependency` at top level (it runs the necessity/invalidation cascades outside a
+  stabilisation; proving that these cannot reach an in-use observer's node needs the graph invariants).
 
 ## ASSUMED
 Nothing beyond the stated hypotheses.  `ObsWF s` in `stabilise_lifecycle` is an invariant of histories
@@ -343,5 +369,186 @@ theorem obsWF_history (env : Env) (s s' : State) (h : Run env NoStabPanic s s') 
 
 example : ObsWF ((stepAction exEnv (.observe (.abs 0)) #[]).run.run exState).2 :=
   obsWF_step exEnv (.observe (.abs 0)) #[] exState _ _ exState_obsWF (fun h => by cases h) (run_eta _ _)
+
+/-! ## O4: handlers run only for in-use observers, and only registered handlers -/
+
+/-- `run_all` is `runAllChecked`: the loop of `run_all` with the ghost assertion
+`deliveryCheck o h.token` — "observer `o` is in use and a handler with this token is registered on it"
+— inserted between `tick` and `logEv (.notif h.token upd)`.  The two programs are EQUAL (not just
+equal on reachable states), so the assertion never fires: a notification is logged, and the handler's
+effects run, only while the observer is in use and the handler registered. -/
+theorem handlers_only_when_in_use (env : Env) (fuel o n : Nat) (nu : NodeUpdate) (now : Int) :
+    runAllChecked env fuel o n nu now = runAll env fuel o n nu now :=
+  runAllChecked_eq env fuel o n nu now
+
+/-- `exState` with handler 7 subscribed on observer 0 (token 0) -/
+def exSubscribed : State := ((subscribe 0 7).run.run exState).2
+
+/-- the handler is notified while the observer is in use … -/
+example : (match ((runAllChecked exEnv 10 0 1 .necessary 2).run.run exSubscribed).2.log with
+    | [.notif 0 (.initialised (.int 5))] => true | _ => false) = true := by decide +kernel
+example : (runAllChecked exEnv 10 0 1 .necessary 2).run.run exSubscribed
+    = (runAll exEnv 10 0 1 .necessary 2).run.run exSubscribed := by rw [handlers_only_when_in_use]
+/-- … and not after `disallow_future_use` -/
+example : ((runAll exEnv 10 0 1 .necessary 2).run.run
+    ((disallowFutureUse 0).run.run exSubscribed).2).2.log.length = 0 := by decide +kernel
+
+/-- Everything that runs during a stabilisation after the two observer phases (`drainHeap`, hence every
+`recompute` with its user effects; `stabiliseEnd`, hence every handler), whatever its outcome: an
+observer that is in use afterwards was in use before and has the same registrations (token, handler
+id, creation time) — in the model, user code can disallow an observer but cannot add or remove a
+handler while the engine is stabilising. -/
+theorem registrations_stable (env : Env) (fuel : Nat) (s s' : State) (r : Except Panic Unit)
+    (hrun : (drainHeap env fuel >>= fun _ => stabiliseEnd env fuel).run.run s = (r, s'))
+    (o : Nat) (ob' : ObsRec) (e' : s'.observers[o]? = some ob') (hst : ob'.state = .inUse) :
+    ∃ ob : ObsRec, s.observers[o]? = some ob ∧ ob.state = .inUse ∧
+      ob'.handlers.map hkey = ob.handlers.map hkey := by
+  have d : Dis s s' :=
+    (Pres.bind (PresD.drainHeap env fuel) fun _ => PresD.stabiliseEnd env fuel).h s r s' hrun
+  obtain ⟨ob, e, rd⟩ := d.obs_back e'
+  have hs : ob.state = .inUse := by
+    rcases rd.state with h | h
+    · rw [← h]; exact hst
+    · rw [hst] at h; revert h; cases ob.state <;> simp [afterDisallow]
+  refine ⟨ob, e, hs, ?_⟩
+  rcases rd.handlers with h | ⟨_, h, _⟩
+  · exact h
+  · rw [hst] at h; cases h
+
+/-! ## O5: reads move only at `stabilise` boundaries, for whole histories -/
+
+/-- Between two stabilisations: along ANY list of API actions other than `stabilise`, `drop_all` and
+`add_dependency` (`Between`), each with any token table and whatever its outcome, an observer whose
+lifecycle state at the end is what it was at the start reads at the end exactly what it read at the
+start.  `MapRefsBackward` and `ObsNodesInRange` (see `Props/C07.lean`) are hypotheses about the
+initial state only. -/
+theorem reads_between_stabilisations (env : Env) (s s' : State) (h : Run env Between s s')
+    (hwf : MapRefsBackward s) (hobs : ObsNodesInRange s) (o : Nat) (st : ObsState)
+    (hs : stOf s o = some st) (hs' : stOf s' o = some st) :
+    s'.tryGetValue env o = s.tryGetValue env o := by
+  obtain ⟨ob, e, h1⟩ := stOf_eq_some.1 hs
+  obtain ⟨ob', e', h2⟩ := stOf_eq_some.1 hs'
+  exact h.read_eq env hwf hobs o ob ob' e e' (h2.trans h1.symm)
+
+/-- what the harness runs is such a history when the actions are of that kind -/
+theorem harness_between (env : Env) (as : List Action) (h : ∀ a ∈ as, Action.keepsReads a = true)
+    (idx : Nat) (rs : RunState) : Run env Between rs.s (runStates env as idx rs).s :=
+  run_runStates env _ as (fun a ha _ => h a ha) idx rs
+
+/-- a write, a node construction over the observed node, a new observer, the disallowing of another
+observer, a dropped handle, a subscription -/
+def exBetween : List Action :=
+  [.set 0 (.int 7), .create (.mapRef 0 (.outer 1)), .observe (.abs 1), .disallow 4, .dropObs 1,
+   .subscribe 0 3]
+
+example : (runStates exEnv exBetween 0 { s := exState }).s.tryGetValue exEnv 0 = .ok (.int 5) :=
+  (reads_between_stabilisations exEnv exState _
+    (harness_between exEnv exBetween (by decide) 0 { s := exState })
+    exState_mapRefsBackward exState_obsNodesInRange 0 .inUse rfl (by decide +kernel)).trans rfl
+
+/-- the var really was written, and observer 4 really was disallowed, in that history -/
+example : ((runStates exEnv exBetween 0 { s := exState }).s.vars[0]?.map (·.value)) = some (.int 7) ∧
+    stOf (runStates exEnv exBetween 0 { s := exState }).s 4 = some .disallowed := by
+  decide +kernel
+
+/-! ## C09, observer side: no callback after `unsubscribe`, `disallow_future_use`, the last `drop` -/
+
+/-- registered tokens have been issued and belong to one observer: true initially … -/
+theorem tokWF_init (maxHeight : Nat) (debug : Bool) : TokWF (State.init maxHeight debug) :=
+  TokWF.init maxHeight debug
+
+/-- … and kept along every history (any actions, any outcomes) -/
+theorem tokWF_history (env : Env) (P : Action → Except Panic (String × Array Nat) → Prop)
+    (s s' : State) (h : Run env P s s') (hw : TokWF s) : TokWF s' :=
+  h.tokWF hw
+
+/-- Once a token is dead — issued, and not registered on any observer that is created or in use — it
+stays dead along every history (any actions, any outcomes, `subscribe` included: tokens are fresh),
+and every event in the log at the end that was not in the log at the start is not a notification for
+it. -/
+theorem dead_stays_dead_and_silent (env : Env) (P : Action → Except Panic (String × Array Nat) → Prop)
+    (s s' : State) (h : Run env P s s') (tok : Nat) (hd : Dead s tok) :
+    Dead s' tok ∧ ∀ e, e ∈ s'.log → e ∈ s.log ∨ ∀ u, e ≠ .notif tok u :=
+  h.mute tok hd
+
+/-- the same per action, in the form the harness uses (the log is reset before each action): the events
+of one action contain no notification for a dead token -/
+theorem step_logs_no_dead_notification (env : Env) (a : Action) (tokens : Array Nat) (s s' : State)
+    (r : Except Panic (String × Array Nat)) (tok : Nat) (hd : Dead s tok)
+    (hrun : (stepAction env a tokens).run.run { s with log := [] } = (r, s')) (u : Update) :
+    Event.notif tok u ∉ s'.log := by
+  have h0 : Dead { s with log := [] } tok := hd
+  intro hmem
+  rcases ((PresMu.stepAction tok env a tokens).h _ _ _ hrun h0).2 _ hmem with h | h
+  · exact absurd h List.not_mem_nil
+  · exact h u rfl
+
+/-- `disallow_future_use o` kills every subscription of `o` -/
+theorem disallow_kills (s : State) (hw : TokWF s) (o : Nat) (ob : ObsRec)
+    (e : s.observers[o]? = some ob) (tok : Nat) (ht : tok ∈ tokensOf ob) :
+    Dead (disallowState s o) tok :=
+  dead_of_disallowState hw o ob e tok ht
+
+/-- dropping the last handle of `o` kills every subscription of `o` -/
+theorem last_drop_kills (s : State) (hw : TokWF s) (o : Nat) (ob : ObsRec)
+    (e : s.observers[o]? = some ob) (hc : ob.clones = 1) (tok : Nat) (ht : tok ∈ tokensOf ob) :
+    Dead (dropObsState s o) tok :=
+  dead_of_dropObsState hw o ob e hc tok ht
+
+/-- `unsubscribe` kills the subscription -/
+theorem unsubscribe_kills (s s' : State) (hw : TokWF s) (o : Nat) (ob : ObsRec)
+    (e : s.observers[o]? = some ob) (tok : Nat) (ht : tok ∈ tokensOf ob)
+    (r : Except Panic (Except ObsError Unit))
+    (hrun : (unsubscribe o tok o).run.run s = (r, s')) : Dead s' tok :=
+  dead_of_unsubscribe hw o ob e tok ht r hrun
+
+/-- No callback after `disallow_future_use` (or after the last `drop`, with `dropObsState`): from the
+state right after `disallow o`, along ANY history, no notification is ever logged for a token that was
+registered on `o`. -/
+theorem no_callback_after_disallow (env : Env) (P : Action → Except Panic (String × Array Nat) → Prop)
+    (s s2 : State) (hw : TokWF s) (o : Nat) (ob : ObsRec) (e : s.observers[o]? = some ob)
+    (tok : Nat) (ht : tok ∈ tokensOf ob) (h : Run env P (disallowState s o) s2) :
+    ∀ ev, ev ∈ s2.log → ev ∈ (disallowState s o).log ∨ ∀ u, ev ≠ .notif tok u :=
+  (h.mute tok (disallow_kills s hw o ob e tok ht)).2
+
+/-- No callback after `unsubscribe`. -/
+theorem no_callback_after_unsubscribe (env : Env)
+    (P : Action → Except Panic (String × Array Nat) → Prop) (s s1 s2 : State) (hw : TokWF s) (o : Nat)
+    (ob : ObsRec) (e : s.observers[o]? = some ob) (tok : Nat) (ht : tok ∈ tokensOf ob)
+    (r : Except Panic (Except ObsError Unit)) (hrun : (unsubscribe o tok o).run.run s = (r, s1))
+    (h : Run env P s1 s2) :
+    ∀ ev, ev ∈ s2.log → ev ∈ s1.log ∨ ∀ u, ev ≠ .notif tok u :=
+  (h.mute tok (unsubscribe_kills s s1 hw o ob e tok ht r hrun)).2
+
+/-- `exState` has no subscriptions, so `exSubscribed` has exactly token 0 on observer 0 -/
+theorem exSubscribed_tokWF : TokWF exSubscribed := by
+  have h0 : TokWF exState := by
+    have key : ∀ (o : Nat) (ob : ObsRec), exState.observers[o]? = some ob → tokensOf ob = [] := by
+      intro o ob e
+      have hlt : o < 5 := (Array.getElem?_eq_some_iff.1 e).1
+      have h5 : o = 0 ∨ o = 1 ∨ o = 2 ∨ o = 3 ∨ o = 4 := by omega
+      rcases h5 with rfl | rfl | rfl | rfl | rfl <;> (cases e; rfl)
+    refine ⟨fun o ob e t ht => ?_, fun o o' ob ob' e _ t ht _ => ?_⟩
+    · rw [key o ob e] at ht; cases ht
+    · rw [key o ob e] at ht; cases ht
+  exact (PresT.subscribe 0 7).h exState _ _ (run_eta _ _) h0
+
+/-- a history: stabilise, write the var, stabilise -/
+def exAfter : List Action := [.stabilise, .set 0 (.int 9), .stabilise]
+
+/-- without the `disallow`, the subscription is notified in that history (`Changed 9` is the last
+action's event) … -/
+example : (match (runStates exEnv exAfter 0 { s := exSubscribed }).s.log with
+    | [.notif 0 (.changed (.int 9))] => true | _ => false) = true := by decide +kernel
+
+/-- … after `disallow 0` the theorem applies: no notification for token 0 in the log at the end -/
+example : ∀ u, Event.notif 0 u ∉ (runStates exEnv exAfter 0 { s := disallowState exSubscribed 0 }).s.log := by
+  intro u hmem
+  have h := no_callback_after_disallow exEnv _ exSubscribed _ exSubscribed_tokWF 0 _ rfl 0
+    (by decide) (harness_history exEnv exAfter 0 { s := disallowState exSubscribed 0 }) _ hmem
+  rcases h with h | h
+  · have : (disallowState exSubscribed 0).log = [] := rfl
+    rw [this] at h; cases h
+  · exact h u rfl
 
 end IncrVerif.Props.C10History
